@@ -162,13 +162,13 @@ def gen_schedules(r, pool, thorough, short):
     for a, b in pairs:
         out.append(Sched([short], interleave(r, writes_for([short], [a, b]), 1, r.choice(["after_each", "reads", "dense"])), "2cut"))
     # (b) all 1-byte chunking
-    for _ in range(40 if thorough else 8):
+    for _ in range(120 if thorough else 8):
         k = r.choice([1, 1, 2, 3])
         msgs = pick_msgs(r, pool, k, maxlen=260)
         total = sum(m.n for m in msgs)
         out.append(Sched(msgs, interleave(r, writes_for(msgs, range(1, total)), k, r.choice(["sparse", "sparse", "none", "dense"])), "1byte"))
     # (c) random compositions
-    for _ in range(30000 if thorough else 1200):
+    for _ in range(120000 if thorough else 1200):
         k = r.choice([1, 2, 2, 3, 4, 5])
         msgs = pick_msgs(r, pool, k)
         total = sum(m.n for m in msgs)
